@@ -122,8 +122,15 @@ const RESPONDERS: usize = 16;
 type MeshCache = Arc<RwLock<HashMap<Uuid, Vec<u8>>>>;
 type ImageCache = Arc<RwLock<HashMap<Uuid, Vec<u8>>>>;
 type AudioCache = Arc<RwLock<HashMap<Uuid, Vec<u8>>>>;
-/// downloads requested and not yet applied: how many are under way and the url of the latest request
-type PendingDownloads = Arc<RwLock<HashMap<(u8, Uuid), (usize, String)>>>;
+/// A download requested and not yet applied: how many are under way, the url of the latest request,
+/// the number of the latest request and of the latest request whose download has arrived.
+struct PendingDownload {
+    under_way: usize,
+    url: String,
+    requested: u64,
+    arrived: u64,
+}
+type PendingDownloads = Arc<RwLock<HashMap<(u8, Uuid), PendingDownload>>>;
 
 fn class_of(asset_type: &SyncAssetType) -> u8 {
     match asset_type {
@@ -212,10 +219,18 @@ impl SyncAssetTransfer {
         debug!("Queuing request for {:?}:{} at {}", asset_type, id, url);
         let max_transfer = self.max_transfer;
         let key = (class_of(&asset_type), id);
+        let mut request_number = 0;
         if let Ok(mut pending) = self.pending.write() {
-            let entry = pending.entry(key).or_insert((0, url.clone()));
-            entry.0 += 1;
-            entry.1 = url.clone();
+            let entry = pending.entry(key).or_insert(PendingDownload {
+                under_way: 0,
+                url: url.clone(),
+                requested: 0,
+                arrived: 0,
+            });
+            entry.under_way += 1;
+            entry.url = url.clone();
+            entry.requested += 1;
+            request_number = entry.requested;
         }
         let pending = self.pending.clone();
         self.download_pool.execute(move || {
@@ -231,7 +246,24 @@ impl SyncAssetTransfer {
                     .read_to_end(&mut bytes)
                     .is_ok()
                 {
+                    // Downloads of one asset can arrive out of order. One that was requested before a
+                    // download that has already arrived carries content that is no newer: it is
+                    // dropped (lock order: pending, then the to-apply map).
+                    let mut registry = pending.write().ok();
+                    let outdated = registry
+                        .as_mut()
+                        .and_then(|pending| pending.get_mut(&key))
+                        .map(|entry| {
+                            if entry.arrived > request_number {
+                                true
+                            } else {
+                                entry.arrived = request_number;
+                                false
+                            }
+                        })
+                        .unwrap_or(false);
                     match asset_type {
+                        _ if outdated => debug!("Dropping outdated download of {}", id),
                         SyncAssetType::Mesh => {
                             let mut lock = meshes_to_apply.write();
                             loop {
@@ -281,7 +313,7 @@ impl SyncAssetTransfer {
             // way and nothing of it waits to be applied (lock order: pending, then the to-apply map)
             if let Ok(mut pending) = pending.write() {
                 if let Some(entry) = pending.get_mut(&key) {
-                    entry.0 = entry.0.saturating_sub(1);
+                    entry.under_way = entry.under_way.saturating_sub(1);
                 }
                 let waiting = match key.0 {
                     0 => meshes_to_apply.read().map(|m| m.contains_key(&id)),
@@ -289,7 +321,7 @@ impl SyncAssetTransfer {
                     _ => audios_to_apply.read().map(|m| m.contains_key(&id)),
                 }
                 .unwrap_or(false);
-                if !waiting && pending.get(&key).is_some_and(|entry| entry.0 == 0) {
+                if !waiting && pending.get(&key).is_some_and(|entry| entry.under_way == 0) {
                     pending.remove(&key);
                 }
             }
@@ -307,7 +339,7 @@ impl SyncAssetTransfer {
         };
         if let Ok(mut pending) = self.pending.write() {
             let waiting = to_apply.read().map(|m| m.contains_key(id)).unwrap_or(false);
-            if !waiting && pending.get(&key).is_some_and(|entry| entry.0 == 0) {
+            if !waiting && pending.get(&key).is_some_and(|entry| entry.under_way == 0) {
                 pending.remove(&key);
             }
         }
@@ -322,7 +354,7 @@ impl SyncAssetTransfer {
         pending
             .iter()
             .filter(|((c, _), _)| *c == class)
-            .map(|((_, id), (_, url))| (*id, url.clone()))
+            .map(|((_, id), entry)| (*id, entry.url.clone()))
             .collect()
     }
 
